@@ -3,7 +3,7 @@
 patch=$1; shift
 cd /repo && git apply --check $patch || { echo "patch does not apply"; exit 2; }
 git -C /repo apply $patch
-trap 'git -C /repo checkout -- .' EXIT
+trap 'git -C /repo reset -q --hard HEAD' EXIT
 for p in "$@"; do
   out=$(cd /verif && bin/check $p --tier quick 2>&1)
   rc=$?
